@@ -406,6 +406,12 @@ def run(repo: Repo, chk: Check) -> None:
     chk.ob('R-EXC', tm.qualname, all(p.outcome == 'return' for p in res), 'readable rendering never fails', tm.loc, {'outcomes': sorted({p.outcome for p in res})},
            what='readable rendering of a timestamp can raise')
 
+    # ---- memory across calls (shared rule, sa/statelint.py) ----------------------------------------------------------------------------------
+    chk.set_clause('C11.M')
+    from ..statelint import check_memory
+    check_memory(repo, chk, ['pytezos.michelson.types.'],
+                 'a value parsed at one type is rebuilt with the type remembered from an earlier parse')
+
 
 class _TsHooks(RTHooks):
     def inline(self, it, fi):
